@@ -240,7 +240,16 @@ class Ctx(object):
             with open(os.path.join(VERIF, ent["witness"])) as f:
                 case = json.load(f)["case"]
             try:
-                fn(case)
+                try:
+                    fn(case)
+                except (Violation, HarnessError):
+                    raise
+                except Exception as ex:
+                    tb = sys.exc_info()[2]
+                    frame = library_frame(tb)
+                    if frame is None or innermost_is_harness(tb):
+                        raise
+                    raise Violation("unexpected %s in %s: %s" % (type(ex).__name__, frame, str(ex)[:300]))
             except Violation as e:
                 if ent["signature"] in str(e):
                     line = "KNOWN-FINDING: property=%s %s [%s]" % (self.id, ent["what"], ent["id"])
